@@ -310,5 +310,13 @@ m("C18", "C18-insert-extra-arguments", "R18-lib:tableInsert:two-or-three-argumen
 for _p in ("C13", "C19"):
     m(_p, _p + "-close-releases-standard-stream", "R19-reconcile:fileCloseAux:standard-stream-not-released", ("iolib.go", "\tif file.std {\n\t\t// closing it would close the descriptor for the whole process\n\t\tL.Push(LNil)\n\t\tL.Push(LString(\"cannot close standard file\"))\n\t\treturn 2\n\t}\n", ""))
     m(_p, _p + "-standard-streams-not-marked", "R19-reconcile:OpenIo:marks-standard-streams", ("iolib.go", "\t\tfile.Value.(*lFile).std = true\n", ""))
+
+m("C01", "C01-andor-testset-by-operator-kind", "R01-peephole:compileLogicalOpExprAux:destination-written-only-by-jumps-that-leave", ("compile.go", "\t\tif jumplabel == lb.e && sreg != a {\n\t\t\t// the jump leaves the whole expression with this operand as its value: it has to\n\t\t\t// arrive in the destination; a jump to the next operand must not touch the destination\n\t\t\tcode.AddABC(OP_TESTSET, sreg, a, 0^flip, sline(expr))\n\t\t} else {\n\t\t\tcode.AddABC(OP_TEST, a, 0, 0^flip, sline(expr))\n\t\t}\n", "\t\tif !hasnextcond {\n\t\t\tcode.AddABC(OP_TEST, a, 0, 0^flip, sline(expr))\n\t\t} else {\n\t\t\tcode.AddABC(OP_TESTSET, sreg, a, 0^flip, sline(expr))\n\t\t}\n"))
+m("C19", "C19-read-count-allocated-up-front", "R19-buffers:readBufioSize:allocation-bounded", ("utils.go", "\t\tif chunk > maxChunk {\n\t\t\tchunk = maxChunk\n\t\t}\n", ""))
+m("C19", "C19-lines-without-reader-check", "R19-buffers:ioLinesIter:reads-only-through-an-existing-reader", ("iolib.go", "\t\ttoclose = true\n\t}\n\terrorIfFileIsClosed(L, file)\n\tif file.reader == nil {\n\t\tL.RaiseError(\"%s is opened for only writing.\", file.Name())\n\t}\n", "\t\ttoclose = true\n\t}\n\terrorIfFileIsClosed(L, file)\n"))
+m("C08", "C08-read-error-is-a-nul-byte", "R08-eof:readNext:any-read-error-ends-the-input", ("parse/lexer.go", "\tif err != nil {\n\t\t// io.EOF or a failing reader", "\tif err == io.EOF {\n\t\t// io.EOF or a failing reader"))
+for _p in ("C05", "C12"):
+    m(_p, _p + "-dostring-pushes-unprotected", "R05-convert:DoString:nothing-raises-before-the-protection", ("auxlib.go", "func (ls *LState) DoString(source string) error {\n\tif fn, err := ls.LoadString(source); err != nil {\n\t\treturn err\n\t} else {\n\t\tif err := ls.pushProtected(fn); err != nil {\n\t\t\treturn err\n\t\t}\n", "func (ls *LState) DoString(source string) error {\n\tif fn, err := ls.LoadString(source); err != nil {\n\t\treturn err\n\t} else {\n\t\tls.Push(fn)\n"))
+    m(_p, _p + "-callbyparam-pushes-unprotected", "R05-convert:CallByParam:nothing-raises-before-the-protection", ("state.go", "\tif cp.Protect {\n\t\tif err := ls.pushProtected(cp.Fn, args...); err != nil {\n\t\t\treturn err\n\t\t}\n\t\treturn ls.PCall(len(args), cp.NRet, cp.Handler)\n\t}\n\tls.Push(cp.Fn)\n\tfor _, arg := range args {\n\t\tls.Push(arg)\n\t}\n", "\tls.Push(cp.Fn)\n\tfor _, arg := range args {\n\t\tls.Push(arg)\n\t}\n\tif cp.Protect {\n\t\treturn ls.PCall(len(args), cp.NRet, cp.Handler)\n\t}\n"))
 if __name__ == "__main__":
     main()
